@@ -29,7 +29,7 @@ CHECK_DEADLOCK FALSE
 """
 
 
-def run(ctx):
+def _run_main(ctx):
     thorough = ctx.tier == "thorough"
     ctx.rule = ("scenario = scripted session from ChannelScn.tla (commands, outputs, prompt, read size, depth, strip/exact/echo style) satisfying the "
                 "preconditions; each run under 4 (quick) / 8 (thorough) segmentation x delay x driver x API variants; non-trivial = some expected result non-empty; "
@@ -117,3 +117,19 @@ def run(ctx):
     ctx.sample({"scenario": scns[0]})
     ctx.sample({"scenario": scns[len(scns) // 2]})
     ctx.traces_validated = len(res) + len(resh)
+
+
+OPOPT_FIELDS = {"channel.StripPrompt", "channel.ExactMatchInput", "channel.Eager"}   # the operation options this property relies on (OpOptions.tla; every other option is noise in any position)
+
+
+def run(ctx):
+    import json as _json
+    import opopts
+    if ctx.replay:
+        rp = _json.load(open(ctx.replay))["scenario"]
+        if rp.get("kind") == "opopts":
+            opopts.replay(ctx, "C01", OPOPT_FIELDS, rp)
+            return
+    _run_main(ctx)
+    if not ctx.replay:
+        opopts.stage(ctx, "C01", OPOPT_FIELDS, ctx.tier == "thorough")
